@@ -795,3 +795,112 @@ Proof.
     pose proof (next_inertia_inv c st ch st' oit Hwf Hinv HJ En) as HJ'.
     constructor; [exact HJ'|]. apply (IH st'); auto.
 Qed.
+
+(* ---------- statements of C16.v proved here (the property file only holds short proofs) ---------- *)
+
+Lemma run_state_inv :
+  forall c st chs t,
+    WF c -> seed_ok c -> Inv c st -> run c st chs = Ok t ->
+    Forall (fun x =>
+      let st' := fst x in
+      st_motif st' = recompute_motif (cK c) (cW c) (cData c) (st_active st') (st_starts st') /\
+      st_bg st' = recompute_bg (cK c) (cW c) (cData c) (st_active st') (st_starts st') /\
+      st_count st' = count_true (st_active st') /\
+      starts_in_range (cW c) (cData c) (st_starts st') = true /\
+      st_last st' <= st_step st')%N t.
+Proof.
+  intros c st chs t Hwf Hseed Hinv Hrun.
+  pose proof (run_inv c chs Hwf Hseed st Hinv) as H. rewrite Hrun in H. destruct H as [_ Ht].
+  eapply Forall_impl; [|apply (trace_ok_states c t st Ht)].
+  intros x [[H1 H2 H3 H4 H5] Hl _]. cbv zeta. auto.
+Qed.
+
+Lemma new_run_check :
+  forall (freq : N -> N -> Z) K W data wraps m initial inertia patience starts0 seeds0 chs c st0 t,
+    data_ok K W data ->
+    Forall (fun wr => (W <= wr)%nat) wraps ->
+    starts_in_range W data starts0 = true ->
+    (m = Zoops -> seeds_ok (length data) initial seeds0) ->
+    new_ K W data wraps m initial inertia patience starts0 seeds0 = Ok (c, st0) ->
+    run c st0 chs = Ok t ->
+    check_C16 freq K W data (report_of freq st0) (obs_of_trace freq t) = true.
+Proof.
+  intros freq K W data wraps m initial inertia patience starts0 seeds0 chs c st0 t Hd Hw Hr Hs En Er.
+  destruct (new_run_holds freq K W data wraps m initial inertia patience starts0 seeds0 chs Hd Hw Hr Hs)
+    as [c' [st0' [En' H]]].
+  rewrite En in En'. inversion En'; subst c' st0'. rewrite Er in H.
+  apply check_C16_iff. tauto.
+Qed.
+
+Lemma new_run_inertia :
+  forall K W data wraps initial inertia patience starts0 seeds0 chs c st0 t,
+    data_ok K W data ->
+    Forall (fun wr => (W <= wr)%nat) wraps ->
+    starts_in_range W data starts0 = true ->
+    seeds_ok (length data) initial seeds0 ->
+    new_ K W data wraps Zoops initial inertia patience starts0 seeds0 = Ok (c, st0) ->
+    run c st0 chs = Ok t ->
+    Forall (fun x => (st_step (fst x) <= inertia)%N ->
+                     forall i, nth i (st_active (fst x)) false = true -> In i seeds0) t.
+Proof.
+  intros K W data wraps initial inertia patience starts0 seeds0 chs c st0 t Hd Hw Hr Hs En Er.
+  destruct (new_ok K W data wraps Zoops initial inertia patience starts0 seeds0 Hd Hw Hr (fun _ => Hs))
+    as [c' [st0' [En' [Hwf [Hinv [Hc [_ [_ [_ Hact]]]]]]]]].
+  assert (Heq : c' = c /\ st0' = st0) by (rewrite En in En'; inversion En'; auto).
+  destruct Heq as [-> ->]. clear En'.
+  assert (HJ : inertia_inv c st0).
+  { intros _ _ i Hi. rewrite Hact in Hi. cbn [init_active] in Hi.
+    apply existsb_exists in Hi. destruct Hi as [x [Hx Hxe]]. apply Nat.eqb_eq in Hxe. subst x.
+    rewrite Hc. exact Hx. }
+  pose proof (run_inertia_inv c chs Hwf st0 t Hinv HJ Er) as H.
+  eapply Forall_impl; [|exact H]. intros x Hx Hle. unfold inertia_inv in Hx.
+  rewrite Hc in Hx. cbn [cMode cInertia cSeed] in Hx. apply Hx; auto.
+Qed.
+
+Lemma builder_run_holds :
+  forall (freq : N -> N -> Z) K data wraps ops b starts0 seeds0 chs,
+    builder_run builder_new ops = Ok b ->
+    data_ok K (b_width b) data ->
+    Forall (fun wr => (b_width b <= wr)%nat) wraps ->
+    starts_in_range (b_width b) data starts0 = true ->
+    (b_mode b = Zoops -> seeds_ok (length data) (b_seeds b) seeds0) ->
+    exists c st0,
+      builder_sample K data wraps b starts0 seeds0 = Ok (c, st0) /\
+      cInertia c = match b_inertia b with Some i => i | None => 0%N end /\
+      cPatience c = match b_patience b with Some p => p | None => N.of_nat (length data) end /\
+      match run c st0 chs with
+      | Ok t => length t = length chs /\
+                Holds_C16 freq K (b_width b) data (report_of freq st0) (obs_of_trace freq t)
+      | r => allowed r
+      end.
+Proof.
+  intros freq K data wraps ops b starts0 seeds0 chs _ Hd Hw Hr Hs. unfold builder_sample.
+  destruct (new_ok K (b_width b) data wraps (b_mode b) (b_seeds b)
+              (match b_inertia b with Some i => i | None => 0%N end)
+              (match b_patience b with Some p => p | None => N.of_nat (length data) end)
+              starts0 seeds0 Hd Hw Hr Hs) as [c [st0 [E [_ [_ [Hc _]]]]]].
+  destruct (new_run_holds freq K (b_width b) data wraps (b_mode b) (b_seeds b)
+              (match b_inertia b with Some i => i | None => 0%N end)
+              (match b_patience b with Some p => p | None => N.of_nat (length data) end)
+              starts0 seeds0 chs Hd Hw Hr Hs) as [c' [st0' [E' H]]].
+  rewrite E in E'. inversion E'; subst c' st0'.
+  exists c, st0. split; [exact E|]. rewrite Hc at 1 2. cbn [cInertia cPatience]. auto.
+Qed.
+
+Lemma new_run_progress :
+  forall K W data wraps m initial inertia patience starts0 seeds0 chs,
+    data_ok K W data ->
+    Forall (fun s => (W < length s)%nat) data ->
+    Forall (fun wr => (W <= wr)%nat) wraps ->
+    starts_in_range W data starts0 = true ->
+    (m = Zoops -> seeds_ok (length data) initial seeds0) ->
+    exists c st0,
+      new_ K W data wraps m initial inertia patience starts0 seeds0 = Ok (c, st0) /\
+      (choices_ok c st0 chs -> exists t, run c st0 chs = Ok t).
+Proof.
+  intros K W data wraps m initial inertia patience starts0 seeds0 chs Hd Hs Hw Hr Hseeds.
+  destruct (new_ok K W data wraps m initial inertia patience starts0 seeds0 Hd Hw Hr Hseeds)
+    as [c [st0 [E [Hwf [Hinv [Hc _]]]]]].
+  exists c, st0. split; [exact E|]. apply run_progress; auto.
+  unfold strict_len. rewrite Hc. exact Hs.
+Qed.
